@@ -186,8 +186,9 @@ def finish(pid, tier, seed, prof, recs, libs, timeout, known, t0, a, extra_cov=N
                                                                            "engine_steps", "schedules", "kinds",
                                                                            "simulated_engine_seconds", "virtual_clock_ms",
                                                                            "run_slices", "run_slices_ended_by_clock",
-                                                                           "mlife_pairs", "g")},
+                                                                           "mlife_pairs", "g", "op_sequences")},
            "distinct_schedule_signatures": len(total.get("schedules", ())), "kinds": total.get("kinds"),
+           "distinct_op_sequences (hash of the op-kind sequence of a lifetime, incl. drive plans)": len(total.get("op_sequences", ())),
            "real_components": ["strengths Python front end (RDScript, RDSystem, LibRDEngine, simulate_script, engine_collection factories)",
                                "native engine built from /repo working tree"],
            "stubbed_components": ["wall clock inside engineexport_run (virtual, hook H1)", "entropy behind random.randint (seeded)"],
